@@ -112,3 +112,10 @@ Theorem C02_refines_map : forall ops,
   map abs_out (snd (exec_all sys_init ops)) = snd (spec_exec_all spec_init ops).
 Proof. exact sys_refines_spec. Qed.
 Print Assumptions C02_refines_map.
+
+(** ** All operations, scans and list_storages included (SysScanProofs) *)
+From Yk Require Import SysScanProofs.
+Theorem C02_refines_map_all_ops : forall ops, Forall op_bytes ops ->
+  map abs_out (snd (exec_all sys_init ops)) = snd (spec_exec_all spec_init ops).
+Proof. exact sys_refines_spec_all. Qed.
+Print Assumptions C02_refines_map_all_ops.
